@@ -22,8 +22,11 @@ structure Inst where
   spec : List Entry
   /-- started empty (not restored from handles) -/
   fresh : Bool := true
-  /-- the known-finding situation this instance is in, if any (see `kfSituation`) -/
-  kf : Option String := none
+  /-- the `(range, document)` pairs this instance was restored from (empty for a fresh instance): what the
+  known-finding situations are decided on (`kfGet`, `kfScan`) -/
+  srcs : List (KGRange × Ckpt) := []
+  /-- the operator's composite watermark (cluster mode; epoch after a deploy) -/
+  wm : Nat := 0
 
 structure Saved where
   inst : Nat
@@ -61,7 +64,7 @@ def showScan (r : Run) : String :=
   if r.isEmpty then "empty" else joinWith "," (r.map fun e => toHex e.key ++ ":" ++ toHex e.val)
 
 /-- a deviation of the modelled code from the spec is tagged as a known finding only when the instance is in that
-finding's situation (`kfSituation`); otherwise it is printed untagged and the harness reports a violation -/
+finding's situation (`kfGet`, `kfScan`); otherwise it is printed untagged and the harness reports a violation -/
 def withSpec (kf : Option String) (model spec : String) : String :=
   if model == spec then model else
   match kf with
@@ -121,20 +124,42 @@ def runSortedB : Run → Bool
   | [_] => true
   | a :: b :: rest => Bytes.cmp a.key b.key == .lt && runSortedB (b :: rest)
 
-/-- the hypotheses of the restore theorems (`Rescale.SrcOk`) evaluated on a real document -/
+/-- executable `NewerAbove` over the tables in read order -/
+def newerB : List Tbl → Bool
+  | [] => true
+  | t :: rest =>
+    rest.all (fun u => t.run.all fun e => u.run.all fun e' => e'.key != e.key || decide (e'.seq < e.seq)) && newerB rest
+
+/-- the hypotheses of the restore theorems (`Rescale.SrcOk`: keys, ne, sorted, deeper, newer, nlev) evaluated on a real
+document -/
 def inFamily (r : KGRange) (c : Ckpt) : Bool :=
+  -- `dkv.New`: `sst.NewEmptyLevelList(6)`; every document of a case must have the same number of levels (`SrcOk.nlev`)
+  decide (c.levels.length = 6) && newerB (readOrder c.levels) &&
   (ckptKeys c).all (fun k => decide (2 ≤ k.length) && Keys.ownsKey r k) &&
   c.levels.flatten.all (fun t => !t.run.isEmpty && runSortedB t.run) &&
   c.levels.tail.all levelValidB
 
-/-- The situation of the open findings D37/D47: some source document of the restore carries keys outside the source
-instance's own key-group range (only possible when that source was itself restored from a handle it partly owned,
-i.e. this is a second rescale). D37 = the merged deeper levels overlap; D47 = they do not (a stale foreign copy
-shadows through level 0 / level order). No other situation is ever tagged. -/
-def kfSituation (sources : List (KGRange × Ckpt)) (s : State) : Option String :=
-  if sources.any (fun (r, c) => (ckptKeys c).any (fun k => !Keys.ownsKey r k)) then
-    if s.levels.tail.all levelValidB then some "D47" else some "D37"
-  else none
+/-- The situations of the open findings, decided per observation (never for an instance restored from ONE handle: the
+theorems cover it whatever the document carries; never for a fresh instance).
+
+* D37 — the restore merged ≥ 2 handles and some merged deeper level is not a valid level (overlapping key ranges, which
+  needs a source document carrying keys outside its source's range): the binary searches of `Get` and of
+  `AllTablesForPrefix` can land on the wrong table. Applies to point reads and to scans.
+* D47 — the restore merged ≥ 2 handles and the KEY read is carried by a source document whose source does not own it
+  (a shared table's stale copy): `Get` can answer from that copy through level order. Point reads of that key only —
+  a scan resolves the copies by sequence number (`d47_counterexample`). -/
+def d37Situation (i : Inst) : Bool :=
+  decide (2 ≤ i.srcs.length) && !(i.s.levels.tail.all levelValidB)
+
+def d47Situation (i : Inst) (k : Bytes) : Bool :=
+  decide (2 ≤ i.srcs.length) &&
+    i.srcs.any (fun (r, c) => !Keys.ownsKey r k && c.levels.flatten.any (fun t => t.run.any (fun e => e.key == k)))
+
+def kfGet (i : Inst) (k : Bytes) : Option String :=
+  if d37Situation i then some "D37" else if d47Situation i k then some "D47" else none
+
+def kfScan (i : Inst) : Option String := if d37Situation i then some "D37" else none
+
 
 /-! the operator's own stores over the instance: `KeyedStateStore.GetState/ApplyMutations`, `TimerStore.Put/GetEarliest` -/
 
@@ -156,6 +181,19 @@ def earliest (scanOf : Bytes → Run) (r : KGRange) : String :=
       | some b => if Bytes.cmp ((e.key.drop 3).take 8) ((b.key.drop 3).take 8) == .lt then some e else some b) none with
   | none => "none"
   | some e => toString (Bytes.beNat ((e.key.drop 3).take 8)) ++ " " ++ toHex (e.key.drop 11)
+
+/-- timers (entries under the key-group timer prefixes of the range) due at watermark `t`, by timestamp -/
+def dueTimers (scanOf : Bytes → Run) (r : KGRange) (t : Nat) : List Entry :=
+  let all := (List.range (r.stop - r.start)).flatMap fun i =>
+    scanOf (Bytes.u16be (r.start + i) ++ [UInt8.ofNat Facts.schemaTimer])
+  let due := all.filter fun e => Bytes.beNat ((e.key.drop 3).take 8) ≤ t
+  due.foldl (fun acc e =>
+    let ts := fun (x : Entry) => Bytes.beNat ((x.key.drop 3).take 8)
+    (acc.takeWhile (fun x => ts x ≤ ts e)) ++ [e] ++ (acc.dropWhile (fun x => ts x ≤ ts e))) []
+
+def showFired (es : List Entry) : String :=
+  if es.isEmpty then "none" else
+  joinWith "," (es.map fun e => toString (Bytes.beNat ((e.key.drop 3).take 8)) ++ " " ++ toHex (e.key.drop 11))
 
 def parseHandle (s : String) : Nat × Nat :=
   match s.splitOn ":" with
@@ -186,7 +224,7 @@ def step (st : St) (ws : List String) : St × String :=
     (st, showAssign (a.map fun idx => pick (List.range (parseRanges frm).length) idx))
   | ["assigncheck", _, _, _, _] => (st, "ok")   -- spec: C06.assign_exact / assign_complete evaluated on the implementation
   | ["new", id, lo, hi, _, _] =>
-    (setInst st ⟨natOr id, ⟨natOr lo, natOr hi⟩, {}, [], true, none⟩, "ok")
+    (setInst st ⟨natOr id, ⟨natOr lo, natOr hi⟩, {}, [], true, [], 0⟩, "ok")
   | ["put", id, k, v] =>
     match findInst st (natOr id) with
     | some i => (setInst st { i with s := write i.s (hexOr k) false (hexOr v), spec := ⟨hexOr k, 0, false, hexOr v⟩ :: i.spec }, "ok")
@@ -200,13 +238,18 @@ def step (st : St) (ws : List String) : St × String :=
     -- M real operators deployed together: operator j owns `ranges kgc m`[j] (Operator.HandleDeploy, C05)
     let rs := KeySpace.ranges (natOr kgc) (natOr m)
     let st' := (List.range rs.length).foldl (fun st j =>
-      setInst st ⟨natOr first + j, rs.getD j ⟨0, 0⟩, {}, [], true, none⟩) st
+      setInst st ⟨natOr first + j, rs.getD j ⟨0, 0⟩, {}, [], true, [], 0⟩) st
     (st', joinWith ";" (rs.map fun r => s!"{r.start},{r.stop}"))
   | ["rot", id] => (st, if (findInst st (natOr id)).isSome then "ok" else "no-instance")
   | ["cdeploy", first, kgc, n, cid, acks] =>
     -- real Assembly.Deploy: AssignRanges over the recorded (acknowledgement-ordered) checkpoint ranges, sliceu.Pick,
     -- Operator.HandleDeploy = dkv.Open of the picked handles in that order with the operator's ownership
-    let srcIds := parseNats acks
+    -- the order in which the snapshot store recorded the acknowledgements is the implementation's choice (any order is
+    -- legitimate): it is read from the implementation's output and must be a permutation of the acknowledged operators
+    let implOrder := (hint.filterMap fun w => if w.startsWith "order=" then some (parseNats (w.drop 6).toString) else none).head?
+    let srcIds := match implOrder with
+      | some o => if o.length == (parseNats acks).length && o.all (parseNats acks).contains && (parseNats acks).all o.contains then o else parseNats acks
+      | none => parseNats acks
     let found := srcIds.filterMap fun a => st.saved.find? (fun s => s.inst == a && s.cid == natOr cid)
     if found.length != srcIds.length then (st, "no-ack") else
     let to := KeySpace.ranges (natOr kgc) (natOr n)
@@ -215,11 +258,11 @@ def step (st : St) (ws : List String) : St × String :=
       let r := to.getD i ⟨0, 0⟩
       let own := Keys.ownsKey r
       let hs := Rescale.pick found (a.getD i [])
-      if hs.isEmpty then setInst st ⟨natOr first + i, r, {}, [], true, none⟩ else
+      if hs.isEmpty then setInst st ⟨natOr first + i, r, {}, [], true, [], 0⟩ else
       let s := openDB own (hs.map (·.ck))
       let spec := hs.flatMap fun sv => sv.spec.filter (fun e => own e.key)
-      setInst st ⟨natOr first + i, r, s, spec, false, kfSituation (hs.map fun sv => (sv.range, sv.ck)) s⟩) st
-    (st', showAssign a)
+      setInst st ⟨natOr first + i, r, s, spec, false, hs.map fun sv => (sv.range, sv.ck), 0⟩) st
+    (st', showAssign a ++ " order=" ++ joinWith "," (srcIds.map toString))
   | ["ckpt", id, cid] => doCkpt st id cid hint
   | ["cckpt", id, cid] => doCkpt st id cid hint
   | ["open", id, lo, hi, _, _, hs] =>
@@ -230,7 +273,7 @@ def step (st : St) (ws : List String) : St × String :=
     if found.length != handles.length then (st, "no-handle") else
     let s := openDB own (found.map (·.ck))
     let spec := found.flatMap fun sv => sv.spec.filter (fun e => own e.key)
-    (setInst st ⟨natOr id, r, s, spec, false, kfSituation (found.map fun sv => (sv.range, sv.ck)) s⟩, "ok")
+    (setInst st ⟨natOr id, r, s, spec, false, found.map fun sv => (sv.range, sv.ck), 0⟩, "ok")
   | ["leak", id, _, hs] =>
     -- next checkpoint of the restored instance = its memtable (WAL) + level list: entries it does not own and that no
     -- source table held (`seq_above_loaded`: the replay only admits owned keys)
@@ -252,11 +295,11 @@ def step (st : St) (ws : List String) : St × String :=
     | none => (st, "no-instance")
   | ["get", id, k] =>
     match findInst st (natOr id) with
-    | some i => (st, withSpec i.kf (showAnswer (answer (getR i.s (hexOr k)))) (showAnswer (answer (specGet i.spec (hexOr k)))))
+    | some i => (st, withSpec (kfGet i (hexOr k)) (showAnswer (answer (getR i.s (hexOr k)))) (showAnswer (answer (specGet i.spec (hexOr k)))))
     | none => (st, "no-instance")
   | ["scan", id, p] =>
     match findInst st (natOr id) with
-    | some i => (st, withSpec i.kf (showScan (scanR i.s (hexOr p))) (showScan (specScan i.spec (hexOr p))))
+    | some i => (st, withSpec (kfScan i) (showScan (scanR i.s (hexOr p))) (showScan (specScan i.spec (hexOr p))))
     | none => (st, "no-instance")
   | ["sput", id, kgc, subj, ns, data, v] =>
     match findInst st (natOr id) with
@@ -277,7 +320,7 @@ def step (st : St) (ws : List String) : St × String :=
     | some i =>
       let p := Keys.subjectKey (natOr kgc) (hexOr subj)
       if !Keys.ownsKey i.range p then (st, "not-routed") else
-      (st, withSpec i.kf (showState p.length (scanR i.s p)) (showState p.length (specScan i.spec p)))
+      (st, withSpec (kfScan i) (showState p.length (scanR i.s p)) (showState p.length (specScan i.spec p)))
     | none => (st, "no-instance")
   | ["tput", id, kgc, subj, t] =>
     match findInst st (natOr id) with
@@ -288,12 +331,52 @@ def step (st : St) (ws : List String) : St × String :=
     | none => (st, "no-instance")
   | ["tearliest", id, _] =>
     match findInst st (natOr id) with
-    | some i => (st, withSpec i.kf (earliest (scanR i.s) i.range) (earliest (specScan i.spec) i.range))
+    | some i => (st, withSpec (kfScan i) (earliest (scanR i.s) i.range) (earliest (specScan i.spec) i.range))
+    | none => (st, "no-instance")
+  | [h, id, kgc, subj, a, b, c] =>
+    if h != "hput" then (st, "bad-op") else
+    match findInst st (natOr id) with
+    | some i =>
+      let p := Keys.subjectKey (natOr kgc) (hexOr subj)
+      if !Keys.ownsKey i.range p then (st, "not-routed") else
+      let out := withSpec (kfScan i) (showState p.length (scanR i.s p)) (showState p.length (specScan i.spec p))
+      let k := Keys.dbKey (natOr kgc) (hexOr subj) (hexOr a) (hexOr b)
+      (setInst st { i with s := write i.s k false (hexOr c), spec := ⟨k, 0, false, hexOr c⟩ :: i.spec }, out)
+    | none => (st, "no-instance")
+  | ["hdel", id, kgc, subj, a, b] =>
+    match findInst st (natOr id) with
+    | some i =>
+      let p := Keys.subjectKey (natOr kgc) (hexOr subj)
+      if !Keys.ownsKey i.range p then (st, "not-routed") else
+      let out := withSpec (kfScan i) (showState p.length (scanR i.s p)) (showState p.length (specScan i.spec p))
+      let k := Keys.dbKey (natOr kgc) (hexOr subj) (hexOr a) (hexOr b)
+      (setInst st { i with s := write i.s k true [], spec := ⟨k, 0, true, []⟩ :: i.spec }, out)
+    | none => (st, "no-instance")
+  | ["htimer", id, kgc, subj, t] =>
+    match findInst st (natOr id) with
+    | some i =>
+      let p := Keys.subjectKey (natOr kgc) (hexOr subj)
+      if !Keys.ownsKey i.range p then (st, "not-routed") else
+      let out := withSpec (kfScan i) (showState p.length (scanR i.s p)) (showState p.length (specScan i.spec p))
+      -- `TimerRegistry.SetTimer`: a timer on or before the watermark is not stored
+      if natOr t ≤ i.wm then (st, out) else
+      let k := Keys.timerKey (natOr kgc) (hexOr subj) (natOr t)
+      (setInst st { i with s := write i.s k false [], spec := ⟨k, 0, false, []⟩ :: i.spec }, out)
+    | none => (st, "no-instance")
+  | ["hwm", id, _, t] =>
+    -- `TimerRegistry.AdvanceWatermark`: every timer not after the watermark fires, earliest first, and is deleted
+    match findInst st (natOr id) with
+    | some i =>
+      let due := dueTimers (scanR i.s) i.range (natOr t)
+      let dueSpec := dueTimers (specScan i.spec) i.range (natOr t)
+      let s' := due.foldl (fun s e => write s e.key true []) i.s
+      let spec' := dueSpec.foldl (fun sp e => ⟨e.key, 0, true, []⟩ :: sp) i.spec
+      (setInst st { i with s := s', spec := spec', wm := natOr t }, withSpec (kfScan i) (showFired due) (showFired dueSpec))
     | none => (st, "no-instance")
   | ["scanown", id] =>
     match findInst st (natOr id) with
     | some i =>
-      (st, withSpec i.kf (showScan ((scanR i.s []).filter (fun e => Keys.ownsKey i.range e.key))) (showScan (specScan i.spec [])))
+      (st, withSpec (kfScan i) (showScan ((scanR i.s []).filter (fun e => Keys.ownsKey i.range e.key))) (showScan (specScan i.spec [])))
     | none => (st, "no-instance")
   | _ => (st, "bad-op")
 
